@@ -9,15 +9,22 @@ whose P->T direction is *held*: the crossing order is forced, not hoped for.
      REKEY_PACKETS threshold of a C10 SmallPacketizer ("threshold"), additionally P starts an
      exchange of its own behind M ("crossing"), or only P does ("peer": M reaches T *before* its
      KEXINIT - trivial for the crossing, still a valid history)
-  4. as soon as T's KEXINIT is on the wire: user operations are started on T (they must queue),
-     the link stays held for `hold_ms`, then M is released, then the rest in generated portions
+  4. as soon as T's KEXINIT is on the wire: user operations are started on T (they must queue):
+     channel send / stream, global_request(wait=False|True), exec_command, open_session / open_channel,
+     request_port_forward; the link stays held for `hold_ms`, then M is released, then the rest in
+     generated portions. M kinds "open-confirm" / "open-failure" answer a channel open that T issued
+     before the exchange (the caller is blocked in open_channel while the reply crosses the exchange).
+     P->T bytes are read by T through a generated finite fragmentation plan (`net.Direction.frag`:
+     maximum recv sizes and idle GAPs = one socket timeout with part of a packet delivered), installed
+     when M is released
   5. P sends a sentinel GLOBAL_REQUEST(want_reply); the run ends with its reply or T's death
 
 Oracle (on the Tap-decoded, ordered log of everything T sent; `c10.Wire` gives the global order):
   foreign-type-in-kex  between T's KEXINIT (20) and its next NEWKEYS (21) only types 1..49
   session-died         the exchange completes, T and P are active afterwards, sentinel answered
   op-lost              queued user operations complete; M's reply (if one is due) is on the wire
-                       after NEWKEYS; M's payload (data, stderr data, exit status) reaches the app
+                       after NEWKEYS; M's payload (data, stderr data, exit status, the outcome of a
+                       pending channel open) reaches the app
 Buckets: `<clause>|<component>` where component is the M kind (`chanreq:<name>:<want_reply>`,
 `close`, `global:1`, `open:accepted`, ...), `keepalive`, or `op:<kind>`. A failing case with several
 components is re-run with each component alone (delta debugging by construction) so that buckets
@@ -26,6 +33,7 @@ Non-trivial: every M was released to T strictly after T's KEXINIT was pushed and
 a NEWKEYS (global order from the wire log; also structurally forced: P's KEXINIT is behind M).
 """
 import concurrent.futures
+import os
 import sys
 import threading
 import time
@@ -41,11 +49,15 @@ PROPERTY = "C11"
 LEVEL = "exploration"
 THOROUGH_WORKERS = 16
 RULE = (
-    "enumeration of role x in-flight message kind (22 kinds: data, extended data, window adjust, EOF, CLOSE, CHANNEL_REQUEST "
-    "exec|env|exit-status|unknown x want_reply 0|1, CHANNEL_OPEN accepted|rejected, GLOBAL_REQUEST want_reply 0|1, REQUEST_SUCCESS|"
-    "FAILURE, CHANNEL_SUCCESS|FAILURE, tested side's own keepalive) with initiator=explicit, plus hypothesis-drawn cases: initiator "
-    "explicit|threshold|crossing|peer, 1-3 messages, 0-2 queued user operations (send, stream, global request, exec), keepalive "
-    "on/off, hold time, release portions; non-trivial = every M released to the tested side strictly between its KEXINIT and "
+    "enumeration of role x in-flight message kind (24 kinds: data, extended data, window adjust, EOF, CLOSE, CHANNEL_REQUEST "
+    "exec|env|exit-status|unknown x want_reply 0|1, CHANNEL_OPEN accepted|rejected, CHANNEL_OPEN_CONFIRMATION|FAILURE answering an open "
+    "the tested side issued before the exchange, GLOBAL_REQUEST want_reply 0|1, REQUEST_SUCCESS|"
+    "FAILURE, CHANNEL_SUCCESS|FAILURE, tested side's own keepalive) with initiator=explicit; role x {open_session/open_channel, "
+    "request_port_forward, global_request(wait=True)} started during the exchange x every in-flight kind; role x threshold-initiated "
+    "exchange x recv fragmentation plans with idle gaps (partial first block, partial body) on the tested side's inbound link; plus "
+    "hypothesis-drawn cases: initiator "
+    "explicit|threshold|crossing|peer, 1-3 messages, 0-2 queued user operations (send, stream, global request wait 0|1, exec, channel "
+    "open, port forward request), keepalive on/off, hold time, release portions, fragmentation plan (0-10 items: max recv size 1-64 | GAP); non-trivial = every M released to the tested side strictly between its KEXINIT and "
     "its NEWKEYS in the global wire order (or keepalive due while the exchange was held >= 0.3 s); distinct by the case dict"
 )
 
@@ -69,6 +81,8 @@ M_KINDS = [
     "chanreq:unknown:1",
     "open:accepted",
     "open:rejected",
+    "open-confirm",
+    "open-failure",
     "global:0",
     "global:1",
     "request-success",
@@ -76,7 +90,9 @@ M_KINDS = [
     "channel-success",
     "channel-failure",
 ]
-OP_KINDS = ["send", "stream", "global", "exec"]
+OP_KINDS = ["send", "stream", "global", "exec", "open", "fwd", "globalw"]
+WAITING_GLOBALS = ("fwd", "globalw")  # ops that wait for the peer's REQUEST_SUCCESS / FAILURE
+PENDING_OPEN = ("open-confirm", "open-failure")  # M kinds answering an open the tested side has outstanding
 MODES = ["explicit", "threshold", "crossing", "peer"]
 
 # reply types that are due for an M kind (checked to be on the wire after NEWKEYS)
@@ -117,6 +133,10 @@ def build_m(kind, i, t_id, role):
         return peers.m_channel_open(b"forwarded-tcpip", 1000 + i, rest=R.string(b"127.0.0.1") + R.u32(4242) + R.string(b"10.0.0.1") + R.u32(55555))
     if kind == "open:rejected":
         return peers.m_channel_open(b"nope@verif", 1000 + i)
+    if kind == "open-confirm":
+        return peers.m_channel_open_confirm(t_id, 2000 + i)
+    if kind == "open-failure":
+        return peers.m_channel_open_failure(t_id, 2, b"verif says no")
     if kind == "global:0":
         return peers.m_global_request(b"hello@verif", False)
     if kind == "global:1":
@@ -130,6 +150,29 @@ def build_m(kind, i, t_id, role):
     if kind == "channel-failure":
         return peers.m_channel_failure(t_id)
     raise core.HarnessError("unknown M kind %r" % kind)
+
+
+class OpFailed(Exception):
+    """a queued user operation came back with the wrong outcome (recorded in opres, judged by the oracle)"""
+
+
+# Known open findings that would make every generated case containing the operation fail (and cost its isolation
+# re-runs): excluded by construction while the entry is open; the committed replays demonstrate them in every run.
+FINDING_OPS = {"op-lost|op:globalw": "globalw", "op-lost|op:fwd": "fwd"}
+
+
+def excluded_ops():
+    if os.environ.get("C11_ASSUME_FIXED"):
+        # for runs against a scratch tree that carries the proposed fix
+        return set()
+    known = core.load_known(PROPERTY)
+    return set(op for key, op in FINDING_OPS.items() if known.get(key, {}).get("status") == "open")
+
+
+def open_sender(payload):
+    """sender channel id of a logged CHANNEL_OPEN (payload without the type byte)."""
+    n = int.from_bytes(payload[:4], "big")
+    return int.from_bytes(payload[4 + n : 8 + n], "big")
 
 
 def _stack_of(t):
@@ -228,6 +271,38 @@ def execute(case):
         def n_type_out(ty):
             return sum(1 for r in dec_out() if r[3] == ty)
 
+        def bg(name, fn):
+            def w():
+                try:
+                    opres[name] = ("ok", fn())
+                except Exception as e:  # judged by the oracle
+                    opres[name] = ("exc", repr(e), type(e).__name__)
+
+            th = threading.Thread(target=w, daemon=True, name="c11-" + name)
+            threads.append(th)
+            th.start()
+            return th
+
+        def t_open():
+            if role == "client":
+                return T.open_session(timeout=WAIT)
+            return T.open_channel("forwarded-tcpip", ("127.0.0.1", 4242), ("10.0.0.1", 55555), timeout=WAIT)
+
+        def logged_opens(lg):
+            return [e for e in lg if e[1] == 90]
+
+        # channel opens of the tested side that are outstanding when the exchange starts (the mute
+        # puppet has logged the CHANNEL_OPEN; its answer is the in-flight message)
+        t_ids = [ch.get_id() for ch in chT]
+        n_pre = 0
+        for i, kind in enumerate(ms):
+            if kind in PENDING_OPEN:
+                bg("pre-open:%d" % i, t_open)
+                o = P.wait_log(lambda lg: logged_opens(lg)[n_pre:], WAIT)
+                if not o:
+                    raise core.HarnessError("CHANNEL_OPEN of the tested side not seen")
+                t_ids[i] = open_sender(o[0][2])
+                n_pre += 1
         kx0 = n_type_out(20)
         nk0 = n_type_out(21)
         if case["ka"]:
@@ -237,22 +312,11 @@ def execute(case):
         m_index = []
         for i, kind in enumerate(ms):
             m_index.append(len(in_d.sent))
-            P.send_raw_seq(build_m(kind, i, chT[i].get_id(), role))
+            P.send_raw_seq(build_m(kind, i, t_ids[i], role))
         if not in_d.wait_pending(len(ms), WAIT):
             raise core.HarnessError("M not pending")
 
         # ---- 3. trigger
-        def bg(name, fn):
-            def w():
-                try:
-                    opres[name] = ("ok", fn())
-                except Exception as e:  # judged by the oracle
-                    opres[name] = ("exc", repr(e))
-
-            th = threading.Thread(target=w, daemon=True, name="c11-" + name)
-            threads.append(th)
-            th.start()
-            return th
 
         stream_n = 40
 
@@ -288,6 +352,7 @@ def execute(case):
         elif mode == "peer":
             # M and the puppet's KEXINIT reach T first; T's KEXINIT is its answer
             wire.mark("release-M")
+            in_d.set_frag(case.get("frag"))
             in_d.release(len(ms) + 1)
         end = time.time() + WAIT
         while time.time() < end and T.is_active() and n_type_out(20) <= kx0:
@@ -303,6 +368,18 @@ def execute(case):
             bg("op:global", lambda: T.global_request("op@verif", wait=False))
         if "exec" in ops:
             bg("op:exec", lambda: chT[2 if len(ms) < 3 else 3].exec_command("true"))
+        if "open" in ops:
+            bg("op:open", t_open)
+        if "fwd" in ops:
+            bg("op:fwd", lambda: T.request_port_forward("127.0.0.1", 4243))
+        if "globalw" in ops:
+
+            def op_globalw():
+                if T.global_request("opw@verif", wait=True) is None:
+                    raise OpFailed("global_request(wait=True) returned None (= denied) although the peer answers REQUEST_SUCCESS")
+                return True
+
+            bg("op:globalw", op_globalw)
         t_hold = time.time()
         to0 = timeouts[0]
         if case["hold_ms"]:
@@ -319,6 +396,7 @@ def execute(case):
         info["timeouts_in_hold"] = timeouts[0] - to0
         if mode != "peer":
             wire.mark("release-M")
+            in_d.set_frag(case.get("frag"))
             in_d.release(len(ms))
         for n in case["sched"]:
             end = time.time() + 0.05
@@ -362,9 +440,19 @@ def execute(case):
             o = P.wait_log(lambda lg: any(e[1] == 98 and e[2][:4] == R.u32(p_id) for e in lg), WAIT)
             if o:
                 P.send_raw_seq(peers.m_channel_success(ex_ch.get_id()))
+        # channel open / waiting global requests: answered once they show up (after the exchange)
+        if "open" in ops and T.is_active():
+            o = P.wait_log(lambda lg: logged_opens(lg)[n_pre:], WAIT)
+            if o:
+                P.send_raw_seq(peers.m_channel_open_confirm(open_sender(o[0][2]), 3000))
+        for opk, rname in (("fwd", b"tcpip-forward"), ("globalw", b"opw@verif")):
+            if opk in ops and T.is_active():
+                if P.wait_log(lambda lg: any(e[1] == 80 and e[2].startswith(R.string(rname)) for e in lg), WAIT):
+                    P.send_raw_seq(peers.m_request_success())
         for th in threads:
             th.join(WAIT)
         hung = [th.name for th in threads if th.is_alive()]
+        info["gaps"] = in_d.gaps
         # ---- application-level delivery of M
         delivered = {}
         if T.is_active():
@@ -380,6 +468,9 @@ def execute(case):
                         delivered[i] = ch.exit_status_ready() and ch.recv_exit_status() == 7 + i
                     elif kind == "eof":
                         delivered[i] = ch.recv(10) == b""
+                    elif kind in PENDING_OPEN:
+                        res = opres.get("pre-open:%d" % i)
+                        delivered[i] = res is not None and (res[0] == "ok" if kind == "open-confirm" else res[-1] == "ChannelException") or "open_channel outcome %r" % (res,)
                 except Exception as e:
                     delivered[i] = "exc %r" % (e,)
         alive = (T.is_active(), P.is_active())
@@ -404,7 +495,7 @@ def execute(case):
     rows_in = dec[in_d.name]
     # M really is what sits at the recorded positions of the P->T stream
     for i, kind in enumerate(ms):
-        pl = build_m(kind, i, (chT[i].get_id()), role)
+        pl = build_m(kind, i, t_ids[i], role)
         r = rows_in[m_index[i] - 1] if m_index[i] - 1 < len(rows_in) else None
         if r is None or bytes([r[3]]) + r[4] != pl:
             raise core.HarnessError("M %d not found at its recorded position" % i)
@@ -445,7 +536,7 @@ def execute(case):
                     lost.append("reply %r to M[%d]=%s never sent" % (rt, i, kind))
             if delivered.get(i) not in (None, True):
                 lost.append("payload of M[%d]=%s not delivered to the application (%r)" % (i, kind, delivered.get(i)))
-        for name in ("op:send", "op:stream", "op:global", "op:exec"):
+        for name in ["op:" + k for k in OP_KINDS]:
             if name[3:] in ops:
                 res = opres.get(name)
                 if res is None or res[0] != "ok":
@@ -459,6 +550,11 @@ def execute(case):
                 lost.append("op:stream data on the wire differs (%d of %d bytes)" % (len(got), len(want)))
         if "global" in ops and not any(r[3] == 80 and r[4].startswith(R.string(b"op@verif")) for r in after):
             lost.append("op:global request not on the wire after NEWKEYS")
+        if "open" in ops and not any(r[3] == 90 for r in after):
+            lost.append("op:open CHANNEL_OPEN not on the wire after NEWKEYS")
+        for opk, rname in (("fwd", b"tcpip-forward"), ("globalw", b"opw@verif")):
+            if opk in ops and not any(r[3] == 80 and r[4].startswith(R.string(rname)) for r in after):
+                lost.append("op:%s request not on the wire after NEWKEYS" % opk)
         if hung:
             lost.append("threads still blocked: %r" % hung)
         if lost:
@@ -494,10 +590,23 @@ def single(case, comp):
 
 def normalise(case):
     case = dict(case)
+    ops = list(case["ops"])
     if case["role"] == "server":
-        case["ops"] = [o for o in case["ops"] if o != "exec"]
-    case["ops"] = sorted(set(case["ops"]))
+        ops = [o for o in ops if o not in ("exec", "fwd")]
+    if "fwd" in ops:
+        # one outstanding waiting global request at a time (replies are matched by order, RFC 4254 section 4)
+        ops = [o for o in ops if o != "globalw"]
+    if any(k in ("request-success", "request-failure") for k in case["ms"]):
+        # an unsolicited reply in flight would be taken - correctly - as the answer to the queued request
+        ops = [o for o in ops if o not in WAITING_GLOBALS]
+    case["ops"] = sorted(set(ops))
     case["ms"] = list(case["ms"])[:3]
+    frag = []
+    for x in list(case.get("frag") or [])[:10]:
+        if x is None and frag.count(None) >= 3:
+            continue
+        frag.append(x)
+    case["frag"] = frag
     if case["ka"]:
         case["hold_ms"] = max(case["hold_ms"], 350)
     if case["mode"] != "threshold":
@@ -510,6 +619,7 @@ class Runner:
         self.ctx = ctx
         self.known = set(k for k, e in core.load_known(PROPERTY).items() if e.get("status") == "open")
         self.pool = concurrent.futures.ThreadPoolExecutor(max_workers=parallel) if parallel > 1 else None
+        self.confirmed = set()  # signatures that already survived their two confirming re-runs in this process
 
     def close(self):
         if self.pool is not None:
@@ -524,9 +634,11 @@ class Runner:
         """One component (or an irreducible combination) failed: report every clause it shows.
         Signatures that are not listed open findings are re-run twice first (timing engine)."""
         ctx = self.ctx
+        if case.get("frag"):
+            bucket += "@frag"  # fails only when the inbound bytes arrive fragmented (see judge)
         for clause, detail in result["viol"]:
             sig = "%s|%s" % (clause, bucket)
-            if sig not in self.known:
+            if sig not in self.known and sig not in self.confirmed:
                 confirmed = True
                 for _ in range(2):
                     r2 = execute(case)
@@ -536,6 +648,7 @@ class Runner:
                 if not confirmed:
                     ctx.inconc("unconfirmed:" + sig)
                     continue
+                self.confirmed.add(sig)
             ctx.violation(clause, bucket, case, detail)
 
     @staticmethod
@@ -566,10 +679,26 @@ class Runner:
                 cls = ["role:" + case["role"], "mode:" + case["mode"]] + ["M:" + k for k in case["ms"]] + ["op:" + k for k in case["ops"]]
                 if case["ka"]:
                     cls.append("keepalive")
+                if case.get("frag"):
+                    gaps = r["info"].get("gaps", 0)
+                    cls += ["frag", "frag:gaps-taken:%d" % min(gaps, 3), "frag:mode:" + case["mode"]]
+                    if case["frag"][0] is not None and case["frag"][0] < 16 and None in case["frag"][1:3]:
+                        cls.append("frag:gap-in-first-block")
                 cls.append("nontrivial" if r["nontrivial"] else "trivial")
                 ctx.case(case, r["nontrivial"], cls)
             if not r["viol"]:
                 continue
+            if ctx.out_of_time():
+                # no time left for isolation / confirmation re-runs: say so instead of guessing a bucket
+                ctx.inconc("failing-case-not-isolated(budget)")
+                continue
+            if case.get("frag"):
+                # one more dimension of the delta debugging: is the fragmentation plan needed?
+                c0 = dict(case, frag=[])
+                r0 = execute(c0)
+                ctx.count("isolation-rerun")
+                if r0["viol"]:
+                    case, r = c0, r0
             if len(comps) <= 1:
                 self.report(case, r, comp_name(comps[0]) if comps else "bare-exchange")
                 continue
@@ -597,8 +726,16 @@ class Runner:
                 self.report(case, r, "combo:" + "+".join(sorted(set(comp_name(c) for c in comps))))
 
 
-def base_case(role, mode="explicit", ms=(), ops=(), ka=False, hold_ms=0, sched=(1, 1), greply=False, rp=0):
-    return normalise(dict(role=role, mode=mode, ms=list(ms), ops=list(ops), ka=ka, hold_ms=hold_ms, sched=list(sched), greply=greply, rp=rp))
+def base_case(role, mode="explicit", ms=(), ops=(), ka=False, hold_ms=0, sched=(1, 1), greply=False, rp=0, frag=()):
+    return normalise(dict(role=role, mode=mode, ms=list(ms), ops=list(ops), ka=ka, hold_ms=hold_ms, sched=list(sched), greply=greply, rp=rp, frag=list(frag)))
+
+
+G = net.GAP
+# recv fragmentation plans of the enumerated part: gap inside the first cipher block (8/16 bytes), inside the
+# length field, inside the body, several gaps, no gap
+FRAG_PLANS = [[1, G], [7, G, 2, G, 3], [15, G], [3, 3, G, 64], [16, G, 5, G, 1, G], [4, 4, 4, 4, 9, 64]]
+FRAG_MS = ["data", "chanreq:env:1", "close", "global:1", "eof", "open:accepted", "window-adjust"]
+frag_items = st.one_of(st.integers(1, 15), st.integers(1, 64), st.just(G))
 
 
 @st.composite
@@ -617,6 +754,7 @@ def cases(draw):
             sched=draw(st.lists(st.integers(1, 3), min_size=0, max_size=4)),
             greply=draw(st.booleans()),
             rp=draw(st.integers(30, 60)),
+            frag=draw(st.one_of(st.just([]), st.lists(frag_items, min_size=1, max_size=10))),
         )
     )
 
@@ -628,6 +766,20 @@ def run(ctx):
     peers.keypool()
     par = 8
     rn = Runner(ctx, par)
+    excl = excluded_ops()
+    ctx.note("ops_excluded_by_open_findings", sorted(excl))
+
+    def admit(case, keep_without_op=True):
+        """Strip operations excluded by an open finding; None if nothing of the case is left to run."""
+        hit = [o for o in case["ops"] if o in excl]
+        if not hit:
+            return case
+        for o in hit:
+            ctx.exclude("op:%s queued behind a key exchange comes back when NEWKEYS arrives (open finding op-lost|op:%s)" % (o, o))
+        if not keep_without_op:
+            return None
+        return dict(case, ops=[o for o in case["ops"] if o not in excl])
+
     try:
         # part 1: every M kind once per role (explicit initiator), + keepalive, + each user op alone
         enum = []
@@ -641,7 +793,17 @@ def run(ctx):
             enum.append(base_case(role, mode="threshold", ms=["data"], rp=40))
             enum.append(base_case(role, mode="crossing", ms=["global:0"]))
             enum.append(base_case(role, mode="peer", ms=["data"], ops=["send"]))
+            # channel open / waiting global requests started during the exchange x every in-flight kind
+            for o in ("open",) + WAITING_GLOBALS:
+                for k in M_KINDS:
+                    c = base_case(role, ms=[k], ops=[o], hold_ms=20, greply=(role == "server"))
+                    if c["ops"]:
+                        enum.append(c)
+            # threshold-initiated exchange read through a fragmenting link with idle gaps
+            for j, plan in enumerate(FRAG_PLANS):
+                enum.append(base_case(role, mode="threshold", ms=[FRAG_MS[(j + (role == "server")) % len(FRAG_MS)]], rp=40, frag=plan))
         mine = [c for i, c in enumerate(enum) if i % ctx.nworkers == ctx.worker]
+        mine = [c for c in (admit(c, keep_without_op=False) for c in mine) if c is not None]
         for i in range(0, len(mine), 2 * par):
             if ctx.out_of_time():
                 break
@@ -656,6 +818,7 @@ def run(ctx):
         bsz = 6
 
         def body(batch):
+            batch = [admit(c) for c in batch]
             rn.judge(batch, rn.map(batch))
 
         ctx.explore(st.lists(cases(), min_size=bsz, max_size=bsz), body, ctx.scale(3, 50), shrink=False)
